@@ -358,6 +358,31 @@ func (in *instr) instrumentBody(body *ast.BlockStmt) {
 		return true
 	})
 
+	// slice ELEMENTS: append(s, ...) stores into the spare capacity of s's array (or copies
+	// the array), a value range over s reads every element; whichever variable holds the
+	// slice header, the elements are the shared memory
+	appendCalls := map[*ast.CallExpr]accessInfo{}
+	rangeSlices := map[*ast.RangeStmt]accessInfo{}
+	ast.Inspect(body, func(n ast.Node) bool {
+		switch x := n.(type) {
+		case *ast.CallExpr:
+			if id, ok := x.Fun.(*ast.Ident); ok && id.Name == "append" && len(x.Args) >= 1 && in.info().Uses[id] == types.Universe.Lookup("append") {
+				if ai, ok := in.objectSlice(x.Args[0]); ok {
+					appendCalls[x] = ai
+				}
+			}
+		case *ast.RangeStmt:
+			if x.Value != nil {
+				if id, isID := x.Value.(*ast.Ident); !isID || id.Name != "_" {
+					if ai, ok := in.objectSlice(x.X); ok {
+						rangeSlices[x] = ai
+					}
+				}
+			}
+		}
+		return true
+	})
+
 	plan := accessPlan{reads: map[*ast.SelectorExpr]accessInfo{}, mapReads: map[*ast.SelectorExpr]bool{}}
 	contentReads := map[ast.Node]accessInfo{} // IndexExpr / len() call -> contents location
 	ast.Inspect(body, func(n ast.Node) bool {
@@ -468,4 +493,39 @@ func (in *instr) instrumentBody(body *ast.BlockStmt) {
 		return true
 	})
 	in.stats["skipped_writes"] += len(writes)
+
+	// 4. slice elements (the operands may have been rewritten above: wrap what is there now)
+	for call, ai := range appendCalls {
+		in.needVrt = true
+		in.stats["slice_appends"]++
+		call.Args[0] = &ast.CallExpr{Fun: vrtSel("SA"), Args: []ast.Expr{call.Args[0], strLit(ai.loc), strLit(ai.site)}}
+	}
+	for rs, ai := range rangeSlices {
+		in.needVrt = true
+		in.stats["slice_ranges"]++
+		rs.X = &ast.CallExpr{Fun: vrtSel("SR"), Args: []ast.Expr{rs.X, strLit(ai.loc), strLit(ai.site)}}
+	}
+}
+
+// objectSlice reports whether e is a slice-typed expression whose elements are not
+// numbers (bytes and counters are private scratch memory almost everywhere and would
+// drown the oracle in work): pointers, interfaces, structs, strings, slices.
+func (in *instr) objectSlice(e ast.Expr) (accessInfo, bool) {
+	tv, ok := in.info().Types[e]
+	if !ok || tv.Type == nil {
+		return accessInfo{}, false
+	}
+	sl, ok := tv.Type.Underlying().(*types.Slice)
+	if !ok {
+		return accessInfo{}, false
+	}
+	if b, isBasic := sl.Elem().Underlying().(*types.Basic); isBasic && b.Kind() != types.String {
+		return accessInfo{}, false
+	}
+	if _, isTP := sl.Elem().(*types.TypeParam); isTP {
+		return accessInfo{}, false
+	}
+	name := types.TypeString(sl.Elem(), func(p *types.Package) string { return p.Name() })
+	loc := "[]" + name + " elements"
+	return accessInfo{loc: loc, site: loc + "@" + in.funcName}, true
 }
